@@ -417,6 +417,12 @@ theorem compileGlobal_covers {n prog} (hn : n.isNode = true) (hk : n.kind = "Glo
   rw [leaf_children hs (by rw [hk]; decide)]
   intro c hc; cases hc
 
+theorem compileNonlocal_covers {n prog} (hn : n.isNode = true) (hk : n.kind = "Nonlocal") (hs : shapeHere n = true) :
+    Covers n prog := by
+  apply covers_of_children hn (not_load_of_kind (by rw [hk]; decide))
+  rw [leaf_children hs (by rw [hk]; decide)]
+  intro c hc; cases hc
+
 theorem compileName_covers {n prog} (hn : n.isNode = true) (hk : n.kind = "Name") (hs : shapeHere n = true)
     (h : compileName n = .ok prog) : Covers n prog := by
   intro k hkm
@@ -987,6 +993,7 @@ theorem compile_covers {n prog} (hn : n.isNode = true) (hall : n.all shapeHere =
     obtain ⟨_, _, _, _, rfl⟩ := h
     exact covers_generic hn (by rw [hk]; decide) _
   · rename_i hk; exact compileGlobal_covers hn hk hs
+  · rename_i hk; exact compileNonlocal_covers hn hk hs
   · rename_i hk; exact compileName_covers hn hk hs h
   · rename_i hk
     simp only [compileNamedExpr, bind_ok_iff, pure_ok_iff] at h
@@ -1070,6 +1077,7 @@ theorem execInstr_covers (lines : List Text.Str) (i : Instr)
   | compName f b => simp only [execInstr, pure_ok_iff] at h; subst h; exact ⟨fun k hk => (by cases hk), fun c hc => (by cases hc)⟩
   | attrAssign p => simp only [execInstr, pure_ok_iff] at h; subst h; exact ⟨fun k hk => (by cases hk), fun c hc => (by cases hc)⟩
   | globalDecl ns => simp only [execInstr, pure_ok_iff] at h; subst h; exact ⟨fun k hk => (by cases hk), fun c hc => (by cases hc)⟩
+  | nonlocalDecl ns => simp only [execInstr, pure_ok_iff] at h; subst h; exact ⟨fun k hk => (by cases hk), fun c hc => (by cases hc)⟩
   | addReturn => simp only [execInstr, pure_ok_iff] at h; subst h; exact ⟨fun k hk => (by cases hk), fun c hc => (by cases hc)⟩
   | addImport x => simp only [execInstr, pure_ok_iff] at h; subst h; exact ⟨fun k hk => (by cases hk), fun c hc => (by cases hc)⟩
   | addStar a b c => simp only [execInstr, pure_ok_iff] at h; subst h; exact ⟨fun k hk => (by cases hk), fun c hc => (by cases hc)⟩
